@@ -254,8 +254,12 @@ def check_case(case):
     order = list(plates)
     rng.shuffle(order)
     by_size_desc = sorted(plates, key=lambda k_: -int(plates[k_].size))
+    _scorers = {}
     for mc, keys in ((case["max_chunk"], sorted(plates)), (50, order), (case["max_chunk"], order), (2, by_size_desc)):
-        scorer = gd.GaussianDBALScorer(max_chunk=mc, max_triples=math.comb(n, 3) + 3)
+        scorers = _scorers
+        if mc not in scorers:  # one scorer object per batch size, reused for the later passes
+            scorers[mc] = gd.GaussianDBALScorer(max_chunk=mc, max_triples=math.comb(n, 3) + 3)
+        scorer = scorers[mc]
         got = scorer.score(plates={k: plates[k] for k in keys}, distance_matrix=cdm, samples=holder, rng=np.random.default_rng(7), progress_bar=False)
         require(sorted(int(k) for k in got) == sorted(plates), "scorer.keys", lambda: "scored plate ids %r, candidates %r" % (sorted(int(k) for k in got), sorted(plates)))
         for k, v in got.items():
